@@ -206,7 +206,7 @@ def run_part(ctx):
         ctx.distinct(("trr", args[:5], k))
         for sig, (msg, rp) in viols.items():
             ctx.violation(sig, msg, rp)
-    if live == 0:
+    if live == 0 and not ctx.violations:
         from vf.runner import HarnessError
 
         raise HarnessError("C13/TRR vacuous: no frame was ever yielded while the fake program was still running")
